@@ -7,6 +7,7 @@ package c10
 import (
 	"context"
 	"fmt"
+	"math"
 	"sync"
 	"sync/atomic"
 	"time"
@@ -103,7 +104,13 @@ func mkBindings() match.Bindings {
 // bindingsVariant: caller bindings of several shapes (the deep one above; flat
 // with arrays only; arrays of arrays / of objects; Go-typed numbers).
 func bindingsVariant(k int) match.Bindings {
-	switch k % 7 {
+	switch k % 9 {
+	case 7:
+		// numbers that are not JSON (left by arithmetic in native code): the bindings cannot
+		// be copied for the script, which must not mean that the script gets the originals
+		return match.Bindings{"arr": []interface{}{1.0, map[string]interface{}{"mean": math.NaN(), "n": 1.0}}, "deep": map[string]interface{}{"l1": map[string]interface{}{"arr": []interface{}{math.NaN()}, "l2": map[string]interface{}{"l3": "original"}}}, "x": 1.0}
+	case 8:
+		return match.Bindings{"stats": map[string]interface{}{"n": 1.0, "max": math.Inf(1)}, "arr": []interface{}{"a", math.Inf(-1)}, "x": math.NaN()}
 	case 5:
 		// Go-typed containers, as a message built in Go or a value set by a native action has them
 		return match.Bindings{"arr": []string{"a", "b"}, "attrs": map[string]string{"k": "v"}, "x": 1.0}
@@ -197,7 +204,7 @@ func (e *exec) run(rec *fw.Rec, name string, bs match.Bindings, props core.StepP
 }
 
 func Run(cfg fw.Config, rec *fw.Rec) {
-	rec.Rule = "20 polluting scripts (in-place mutation of _.bindings at depth 1-4, of _.props incl. nested maps and lists, globals with and without var, Object/Array prototype and JSON/Math/Object.keys patches, replaced environment members, environment members reached by enumeration / computed keys / escaped identifiers, pollution followed by a throw) run (on caller bindings of 7 shapes: nested objects, flat with arrays only, arrays of arrays / objects, Go-typed numbers, Go-typed containers such as []string and map[string]string) in sequences of length 1-5 before a probe script that reports everything observable (globals, prototypes, built-ins, environment keys, props, bindings); the probe's report must equal its report in a clean run; a self-probe pollutes and reports leftovers of its own earlier executions; the caller's bindings and props are deep-snapshotted around every execution (also through Spec.Step); a tally script run with absent and with empty step properties must find _.props empty every time (sequentially, after every polluter, from 32 goroutines); 16-64 goroutines run one compiled source concurrently (race detector on); non-trivial = polluter sequence followed by a clean probe; distinct by sequence"
+	rec.Rule = "20 polluting scripts (in-place mutation of _.bindings at depth 1-4, of _.props incl. nested maps and lists, globals with and without var, Object/Array prototype and JSON/Math/Object.keys patches, replaced environment members, environment members reached by enumeration / computed keys / escaped identifiers, pollution followed by a throw) run (on caller bindings of 9 shapes: nested objects, flat with arrays only, arrays of arrays / objects, Go-typed numbers, Go-typed containers such as []string and map[string]string, nested NaN / infinite numbers) in sequences of length 1-5 before a probe script that reports everything observable (globals, prototypes, built-ins, environment keys, props, bindings); the probe's report must equal its report in a clean run; a self-probe pollutes and reports leftovers of its own earlier executions; the caller's bindings and props are deep-snapshotted around every execution (also through Spec.Step); a tally script run with absent and with empty step properties must find _.props empty every time (sequentially, after every polluter, from 32 goroutines); 16-64 goroutines run one compiled source concurrently (race detector on); non-trivial = polluter sequence followed by a clean probe; distinct by sequence"
 	rec.Required = []string{"probe_after_polluters_clean", "self_probe_clean", "concurrent_rounds", "step_props_intact", "snapshots_intact", "absent_or_empty_props_private_per_execution"}
 	rec.Assume = []string{"the race detector reports only races that occur in the interleavings produced", "probe observability: what the probe script can enumerate (globals by name, prototypes, built-ins used by the DSL, environment keys, props, bindings)"}
 	e := newExec(rec)
